@@ -28,6 +28,7 @@ import (
 	"github.com/ElrondNetwork/elrond-go/dataRetriever/mock"
 	"github.com/ElrondNetwork/elrond-go/dataRetriever/resolvers"
 	"github.com/ElrondNetwork/elrond-go/marshal"
+	"github.com/ElrondNetwork/elrond-go/process/interceptors"
 	"verif/engine/mc"
 	"verif/engine/vsched"
 )
@@ -81,7 +82,8 @@ type scenario struct {
 	Threads int
 	Rounds  int
 	Max     int32
-	BadMsg  bool // resolver driver: thread 0's first message does not unmarshal (error path after Start)
+	BadMsg  bool   // resolver driver: thread 0's first message does not unmarshal (error path after Start)
+	Kinds   string // interceptor driver: message kind per thread (see interceptor.go)
 }
 
 func main() {
@@ -93,16 +95,29 @@ func main() {
 		var scs []scenario
 		for _, d := range []string{"proto", "resolver"} {
 			for _, max := range []int32{1, 2} {
-				scs = append(scs, scenario{d, 2, 1, max, false}, scenario{d, 2, 2, max, false})
+				scs = append(scs, scenario{Driver: d, Threads: 2, Rounds: 1, Max: max, BadMsg: false}, scenario{Driver: d, Threads: 2, Rounds: 2, Max: max, BadMsg: false})
 				if !c.Quick() || d == "proto" {
-					scs = append(scs, scenario{d, 3, 1, max, false})
+					scs = append(scs, scenario{Driver: d, Threads: 3, Rounds: 1, Max: max, BadMsg: false})
 				}
 				if !c.Quick() {
-					scs = append(scs, scenario{d, 3, 2, max, false})
+					scs = append(scs, scenario{Driver: d, Threads: 3, Rounds: 2, Max: max, BadMsg: false})
 				}
 			}
 			if d == "resolver" {
-				scs = append(scs, scenario{d, 2, 2, 1, true}, scenario{d, 3, 1, 2, true})
+				scs = append(scs, scenario{Driver: d, Threads: 2, Rounds: 2, Max: 1, BadMsg: true}, scenario{Driver: d, Threads: 3, Rounds: 1, Max: 2, BadMsg: true})
+			}
+		}
+		// interceptor driver: every multiset of 2 (quick) / also 3 (thorough) message kinds
+		for _, max := range []int32{1, 2} {
+			for i := range msgKinds {
+				for j := i; j < len(msgKinds); j++ {
+					scs = append(scs, scenario{Driver: "interceptor", Threads: 2, Rounds: 1, Max: max, Kinds: string([]byte{msgKinds[i], msgKinds[j]})})
+					if !c.Quick() && max == 2 {
+						for k := j; k < len(msgKinds); k++ {
+							scs = append(scs, scenario{Driver: "interceptor", Threads: 3, Rounds: 1, Max: max, Kinds: string([]byte{msgKinds[i], msgKinds[j], msgKinds[k]})})
+						}
+					}
+				}
 			}
 		}
 		total := int64(0)
@@ -110,7 +125,11 @@ func main() {
 			sc := sc
 			st := mc.Explore(c, -1, 1, func(ch *mc.Chooser) { runOne(c, sc, ch) })
 			total += st.Executions
-			c.Count(fmt.Sprintf("schedules[%s T=%d R=%d max=%d bad=%v]", sc.Driver, sc.Threads, sc.Rounds, sc.Max, sc.BadMsg), st.Executions)
+			if sc.Driver == "interceptor" {
+				c.Count(fmt.Sprintf("schedules[interceptor T=%d max=%d]", sc.Threads, sc.Max), st.Executions)
+			} else {
+				c.Count(fmt.Sprintf("schedules[%s T=%d R=%d max=%d bad=%v]", sc.Driver, sc.Threads, sc.Rounds, sc.Max, sc.BadMsg), st.Executions)
+			}
 		}
 		c.Bound = "unbounded preemptions; all schedules of every scenario"
 		c.Set("scenarios", len(scs))
@@ -141,10 +160,22 @@ func runOne(c *mc.Ctx, sc scenario, ch *mc.Chooser) {
 		good, _ = m.Marshal(&dataRetriever.RequestData{Type: dataRetriever.HashType, Value: []byte("h")})
 		bad = []byte{0xff, 0xff, 0xff}
 	}
+	var icp *interceptors.SingleDataInterceptor
+	if sc.Driver == "interceptor" {
+		var err error
+		icp, err = newInterceptor(o, work)
+		if err != nil {
+			c.Fatal("interceptor: %v", err)
+		}
+	}
 	for i := range bodies {
 		i := i
 		bodies[i] = func() {
 			for r := 0; r < sc.Rounds; r++ {
+				if sc.Driver == "interceptor" {
+					_ = icp.ProcessReceivedMessage(interceptorMsg(sc.Kinds[i]), "connected")
+					continue
+				}
 				if sc.Driver == "proto" {
 					if o.CanProcess() {
 						o.StartProcessing()
